@@ -503,6 +503,8 @@ const POOL: &[&str] = &[
     "<a><ab></ab><a></a></a>",
     "<ab><a></a></ab>",
     "<a>\n  <a>\n  </a>\n</a>\n",
+    "<r><a>\u{FEFF}x<c>y</c></a><b>\u{FEFF}</b></r>",
+    "<a>\u{c}x\u{c}</a>\u{c}",
 ];
 
 fn configs() -> Vec<u8> {
